@@ -47,7 +47,7 @@ def handle (inp out : List String) : String :=
   match inp with
   | ["known", want, what] =>
     -- a graph beyond the list-based model whose local girth is known by construction (C11.local_girth_exact / local_girth_bounded say what it must be)
-    verdict [want] out (if out ≠ [want] then some ("local-girth-is-not-the-shortest-cycle-through-the-node (" ++ what ++ ", expected " ++ want ++ ")") else none)
+    verdict [want] out (if out ≠ [want] then some ("a-distance-or-local-girth-known-by-construction-is-not-reported (" ++ what ++ ", expected " ++ want ++ ")") else none)
   | [r, c, root, mx] =>
     match parseSM r c, parseNode root with
     | some h, some root =>
